@@ -5,18 +5,20 @@ VERIF=$(cd "$(dirname "$0")/.." && pwd)
 wt=${TRYMUT_WT:-/tmp/mx}
 name=$1; shift
 p=$VERIF/seeded/$name/patch.diff
-log=$VERIF/seeded/$name/detect.log
-: > $log; rm -rf $VERIF/seeded/$name/replays
+final=$VERIF/seeded/$name/detect.log
+log=$final.new   # replaced only when the run is complete
+: > $log; rm -rf $VERIF/seeded/$name/replays.new
 if [ ! -d $wt ]; then git -C /repo worktree add --detach $wt HEAD >/dev/null 2>&1; fi
 git -C $wt checkout -q --detach $(git -C /repo rev-parse HEAD); git -C $wt reset -q --hard
 if ! git -C $wt apply $p 2>>$log; then echo "$name: patch does not apply" | tee -a $log; exit 2; fi
 cd $VERIF
 res=""
 for c in "$@"; do
-  out=$(VERIF_REPO=$wt VERIF_NO_EVIDENCE=1 VERIF_REPLAY_DIR=$VERIF/seeded/$name/replays ./check $c --tier quick 2>&1); rc=$?
+  out=$(VERIF_REPO=$wt VERIF_NO_EVIDENCE=1 VERIF_REPLAY_DIR=$VERIF/seeded/$name/replays.new ./check $c --tier quick 2>&1); rc=$?
   echo "=== $c rc=$rc" >> $log; echo "$out" | cut -c1-600 >> $log
   nsig=$(echo "$out" | grep -c "^VIOLATION")
   res="$res $c:rc$rc/$nsig"
 done
 git -C $wt reset -q --hard
 echo "$name ->$res" | tee -a $log
+mv $log $final; rm -rf $VERIF/seeded/$name/replays; [ -d $VERIF/seeded/$name/replays.new ] && mv $VERIF/seeded/$name/replays.new $VERIF/seeded/$name/replays
